@@ -23,7 +23,7 @@ Strategies (all randomness comes from the `random.Random` handed in):
 import sys
 import threading
 
-__all__ = ["Sched", "LockProxy", "YFile", "TracedList", "Replay", "PCT", "RandomWalk", "explore", "Deadlock"]
+__all__ = ["Sched", "LockProxy", "YFile", "TracedList", "Replay", "PCT", "RandomWalk", "PreemptAt", "explore", "children", "Deadlock"]
 
 
 class Deadlock(Exception):
@@ -81,7 +81,8 @@ class Sched:
     def _local(self, frame, event, arg):
         if event == "line":
             self.n_line += 1
-            self.sync("line")
+            self.where = (frame.f_code.co_filename, frame.f_lineno, frame.f_code.co_name)
+            self.sync("line", self.where)
         return self._local
 
     # ------------------------------------------------------------ controller side
@@ -291,6 +292,36 @@ class Replay:
             if t in runnable:
                 return t
             self.diverged = True
+        return last if last in runnable else runnable[0]
+
+
+class PreemptAt:
+    """Line mode: run thread `tid` until it is parked for the `k`-th time at a source line of a file ending in
+    `file_suffix` (k = 0, 1, …), then run every other thread as far as it goes, then finish `tid`.  `hits` counts the
+    line points of that file seen on the way (so the caller knows how many k exist)."""
+
+    def __init__(self, tid, file_suffix, k):
+        self.tid, self.suffix, self.k = tid, file_suffix, k
+        self.hits = 0          # line points of that file at which `tid` has parked so far
+        self.fired = False
+        self.where = None
+        self.steps = 0         # how often `tid` was chosen
+        self.counted = -1
+
+    def __call__(self, sched, runnable, last):
+        if not self.fired and self.tid in runnable:
+            kind, info = sched.pending[self.tid]
+            if kind == "line" and info[0].endswith(self.suffix) and self.counted != self.steps:
+                self.counted = self.steps
+                if self.hits == self.k:
+                    self.fired, self.where = True, info
+                self.hits += 1
+            if not self.fired:
+                self.steps += 1
+                return self.tid
+        others = [t for t in runnable if t != self.tid]
+        if self.fired and others:
+            return last if last in others else others[0]
         return last if last in runnable else runnable[0]
 
 
